@@ -8,8 +8,10 @@ THEOREMS = ["Osmt.Properties.C12_rup_sound", "Osmt.Properties.C12_learnt_implied
 def run(tier):
     chk = common.Check("C12", tier)
     chk.lean_obligations(THEOREMS)
-    n = 260 if tier == "quick" else 4000
-    cases, results = engine.run_corpus(n, chk.seed, certify=False, timeout=20)
+    n, nbig = (200, 360) if tier == "quick" else (3000, 6000)
+    cases = [engine.make_case(i, chk.seed, engine.LOGICS_KERNEL, engine.OPTION_VECTORS) for i in range(n)]
+    cases += [engine.make_big_case(i, chk.seed) for i in range(nbig)]
+    results = engine.run_cases(cases, certify=False, timeout=10 if tier == "quick" else 30)
     learnt = timeouts = 0
     per = {}
     for c, r in zip(cases, results):
